@@ -798,6 +798,37 @@ def run_determ(ctx, i):
         ds = sim.via_image_from(image=img)
         sims.append((value_fp(ds.data), value_fp(ds.noise_map)))
     ctx.check(sims[0] == sims[1] == sims[2], "deterministic.simulator_seed", noise_seed=seed, fingerprints=sims)
+    # ONE simulator object with a fixed seed used several times (image A, an image of another size, image A again): equal inputs give
+    # equal simulated datasets whatever it simulated before, equal to what a fresh simulator gives
+    sim1 = aa.SimulatorImaging(exposure_time=200.0, background_sky_level=3.0, psf=aa.Kernel2D.no_mask(values=kv.copy(), pixel_scales=0.3), noise_seed=seed)
+    reuse = []
+    for img_values in (img_v, rng.random((H + 1, W + 2)) + 0.2, img_v):
+        try:
+            dsr = sim1.via_image_from(image=aa.Array2D.no_mask(values=img_values.copy(), pixel_scales=0.3))
+            reuse.append((value_fp(dsr.data), value_fp(dsr.noise_map)))
+        except Exception as e:
+            reuse.append("EXC:" + type(e).__name__)
+    ctx.check(reuse[0] == reuse[2] == sims[0], "deterministic.simulator_seed", what="one simulator object reused", noise_seed=seed,
+              first=reuse[0], third=reuse[2], fresh_simulator=sims[0])
+    # augmented assignment on a second reference to a structure (y = x; y *= 2): the object x still holds what it held, and what it
+    # reported before still holds
+    for label, make in (("Array2D", lambda: aa.Array2D.no_mask(values=img_v.copy(), pixel_scales=0.3)),
+                        ("Grid2D", lambda: aa.Grid2D.uniform(shape_native=(H, W), pixel_scales=0.3)),
+                        ("Visibilities", lambda: aa.Visibilities(visibilities=(img_v[0, :4] + 1j * img_v[1, :4]).copy()))):
+        try:
+            x_ = make()
+            before = (value_fp(x_), read(x_, "amplitudes") if label == "Visibilities" else read(x_, "native"))
+            y_ = x_
+            y_ *= 2.0
+            y_ = x_[1:] if label == "Visibilities" else x_
+            z_ = x_
+            z_ -= 1.5
+            z_ += 0.25
+            z_ /= 3.0
+            after = (value_fp(x_), read(x_, "amplitudes") if label == "Visibilities" else read(x_, "native"))
+            ctx.check(before == after, "augmented_assignment.source_untouched", structure=label, before=before[0][:60], after=after[0][:60])
+        except Exception as e:
+            ctx.check(False, "augmented_assignment.source_untouched", structure=label, exception=repr(e)[:200])
     from autoarray.dataset import preprocess
     a = _np(preprocess.data_with_gaussian_noise_added(data=aa.Array2D.no_mask(values=img_v.copy(), pixel_scales=0.3), sigma=0.3, seed=seed))
     np.random.random(7)
